@@ -1,5 +1,6 @@
 From Coq Require Import ZArith List String Bool.
 From FV Require Import Base.Ser Base.Res C03.Model.
+From FV Require C03.ModelBinary.
 Import ListNotations.
 Open Scope string_scope.
 Definition unesc (s : list Z) : list Z := xml_unescape (S (List.length s)) s.
@@ -8,6 +9,8 @@ Definition reg : registry := [
   ("escapeattr", run1 escapeattr);
   ("xml_unescape", run1 unesc);
   ("hexStr", run1 hexStr);
-  ("deHexStr", run1 deHexStr)
+  ("deHexStr", run1 deHexStr);
+  ("num2binary", run2 ModelBinary.num2binary);
+  ("binary2num", run1 ModelBinary.binary2num)
 ].
 Definition fv_entry := dispatch reg.
